@@ -324,6 +324,8 @@ class Machine(Interp):
             raise Unsupported("async comprehension")
         it = yield from self.eval(gen.iter, fr)
         cfr = fr.child({}) if gi == 0 else fr
+        for g in node.generators:
+            cfr.local_names |= {x.id for x in ast.walk(g.target) if isinstance(x, ast.Name)}
 
         def round_body():
             for cond in gen.ifs:
@@ -935,6 +937,7 @@ class Machine(Interp):
         del c.pc[pc_mark - 2:pc_mark]
         for nm in target_names:
             fr.locals[nm] = Poison(f"loop target {nm} after a summarised loop")
+        # a poisoned target is re-bound by the next element of the same loop: fine
         return NORMAL
 
     def one_round(self, target, vals, value_fn, seg, fr, round_body, round_term):
